@@ -221,3 +221,29 @@ CHECKS["C09"] = dict(
     assumptions=["'reported' = load() returns false (PlannerData) or an error/warning is logged (StateStorage)",
                  "reals round trip applies to the values a space exposes; spaces exposing none (Discrete) are counted as vacuous"],
 )
+
+CHECKS["C01"] = dict(
+    src="harness/C01_paths.cpp",
+    cases=dict(quick=3000, thorough=40000),
+    rule="(filled below)",
+    technique="property-based testing: generated planning problems per planner, independent path re-validation oracle, one forked process per case",
+    level_text="Every shipped geometric / multilevel planner that can be instantiated generically (47 registry entries) is run on generated "
+               "problems; the reported status, flags and path are judged by an oracle that shares no bookkeeping with the planner (own predicate "
+               "copy, own motion-check loop). Exploration-level: a few thousand (quick) to tens of thousands (thorough) solves.",
+    level_note="Trusted: harness geometry (ball / box obstacles over the x,y coordinates), the space's interpolate / distance (covered by "
+               "C06/C07), the per-planner 'strict recheck' flag fixed by reading each planner's path assembly. Termination is a call-counting "
+               "condition, never wall-clock.",
+    assumptions=["Dubins / Reeds-Shepp problems use validity = satisfiesBounds && obstacles (the repository's own car demo convention)",
+                 "an ompl::Exception from setup()/solve() with no path added is a clean rejection of an unsupported configuration",
+                 "planners needing bespoke fixtures (STRRTstar, TSRRT, VFRRT, XXL, Lightning/Thunder, LTL) are not exercised"],
+)
+CHECKS["C01"]["rule"] = (
+    "Case = planner (uniform over 47 registry entries incl. RRT/RRTConnect with intermediate states, 1-level multilevel planners, 2-thread pRRT/pSBL/"
+    "CForest, AnytimePathShortening) x space {R^2..R^6, SE2, SE3, weighted R2xSO2xR1, Dubins / Reeds-Shepp for directed single-tree planners} x "
+    "0..6 ball/box obstacles x scenario {normal 69%; every start invalid; every goal invalid; invalid-first among several starts and goals; "
+    "non-sampleable goal region; start inside goal; start out of bounds} x goal {GoalState, GoalStates} x threshold {0.1, 1e-3, epsilon (library default), 0.5, 2.5} x "
+    "resolution x range x goal bias x seed x evaluation budget (0 or log-uniform 1..20000, scaled per planner). Oracle: status <-> pdef coherence "
+    "(truthful INVALID_START / INVALID_GOAL / UNRECOGNIZED_GOAL_TYPE, approximate flag and difference vs the last state), first state is a valid "
+    "start, all states in bounds (raw coordinates), dense validity (invalid runs <= 2r at r/20 sampling), strict re-check of every consecutive pair "
+    "with the harness's own k/n loop for tree/roadmap planners. Non-trivial = a solution whose straight start-goal motion is invalid, or an "
+    "abnormal scenario; distinct = consumed byte prefix.")
